@@ -43,10 +43,11 @@ def order_lines(rules, ind=0):
     out = []
     for r in rules:
         s = " " * ind + " ".join(r["toks"])
+        # (hand-maintained *.order files separate the parameters from the row with blanks, runs of blanks or a TAB)
         if r["order_reverse"]:
-            s += " %order_reverse"
+            s += r.get("sep", " ") + "%order_reverse"
         if r["glob"]:
-            s += " %global"
+            s += r.get("sep", " ") + "%global"
         out.append(s)
         out += order_lines(r["children"], ind + 4)
     return out
@@ -86,10 +87,14 @@ def gen_order(rnd, rules, rev, depth=0):
     for toks in rnd.sample(plain, rnd.randint(0, min(2, len(plain)))):
         pos = rnd.randint(0, len(out))
         out.insert(pos, orule([rev] + toks, order_reverse=True))
+        if rnd.chance(40):
+            out[pos]["sep"] = rnd.choice(["\t", "   ", " \t", "\t\t"])
     if depth == 0:
         for r in rules:
             if r.get("glob") and rnd.chance(70):
                 out.insert(rnd.randint(0, len(out)), orule([r["toks"][0]], glob=True))
+                if rnd.chance(30):
+                    out[-1 if False else [i for i, x in enumerate(out) if x["glob"]][-1]]["sep"] = "\t"
     return out
 
 
@@ -277,11 +282,52 @@ def _gen(case):
             raise Violation("comments-move-commands", f"with comments the commands come out as {with_c!r}, without as {_paths(pt)!r}"[:700], det)
         if any(" !!note-" in x for p in _paths(ptc) for x in p):
             labels.append("commented-command")
+    # the same ordering rulebook applied to a generated CONFIGURATION (what 'annet gen' prints): rows of the new side plus the negated
+    # form of every other one (so that pinned and mirrored entries have something to place); same rank rule, read off the row's text
+    from annet.annlib.patching import Orderer
+    cfg = _with_negated_twins(new, rev)
+    ordered = Orderer(rb["ordering"], vendor).order_config(cfg)
+    det["ordered_config"] = RL.plain(ordered)
+    if _unordered(ordered) != _unordered(cfg):
+        raise Violation("order-config-loses", "order_config changed the set of rows of a generated configuration", det)
+    _check_cfg_level(ordered, [dict(r, _src="l") for r in case["order"]], rev, (), labels, det)
     if Counter(_paths(pt)) != Counter(_paths(pt2)):
         raise Violation("not-a-permutation", "sorting the patch lost or duplicated a command", det)
     if _paths(pt) != _paths(pt2):
         labels.append("sort-changed-order")
     return labels
+
+
+def _with_negated_twins(tree, rev):
+    out = odict()
+    for i, (row, ch) in enumerate(tree.items()):
+        out[row] = _with_negated_twins(ch, rev) if ch else odict()
+    for i, row in enumerate(list(tree)):
+        if i % 2 == 0 and not row.startswith(rev):
+            out[rev + " " + row] = odict()
+    return out
+
+
+def _check_cfg_level(tree, olist, rev, path, labels, det):
+    ranked = []
+    for row, ch in tree.items():
+        if row.startswith(rev) and not row.startswith(rev + " "):
+            continue      # a word that merely starts with the negation letters: which class order_config puts it in is not stated
+        direct = not row.startswith(rev + " ")
+        rank, src, children = ref_order(row, direct, olist, rev)
+        ranked.append((row, direct, rank, src, children, ch))
+    if any(x[2] > 0 and not x[1] for x in ranked):
+        labels.append("config-pinned-negated-row")
+    for i in range(len(ranked)):
+        for j in range(i + 1, len(ranked)):
+            a, b = ranked[i], ranked[j]
+            comparable = a[3] is None or b[3] is None or a[3] == b[3]
+            if comparable and a[2] > b[2]:
+                raise Violation("config-rank-order", f"ordered configuration, block {path!r}: {a[0]!r} (rank {a[2]}) stands before {b[0]!r} "
+                                f"(rank {b[2]})", det)
+    for row, direct, rank, src, children, ch in ranked:
+        if ch and direct:
+            _check_cfg_level(ch, children, rev, path + (row,), labels, det)
 
 
 def _all_rules(rules):
